@@ -117,6 +117,8 @@ def _scene(d, kind):
         case.opts['eigenvalue_floor'] = d.choice([1e-10, 1e-6])
     if kind in ('gmm', 'gcacgmm') and d.bool():
         case.opts['covariance_type'] = d.choice(['full', 'diagonal', 'spherical'])
+    if kind == 'gmm' and d.bool():
+        case.opts['weight_constant_axis'] = (-1,)
     case.meta['opts'] = {**case.opts, **case.trainer_kwargs}
     return case
 
@@ -182,6 +184,15 @@ def _check(d, ctx, kind):
     model = ctx.lib(mm.fit, case)
     post = ctx.lib(mm.predict, model, case)
     fp = ctx.lib(mm.fit, case, method='fit_predict')
+    # fit_predict is fit followed by predict: the same numbers (this also keeps
+    # the reference-EM cross-check below, which observes ``fit``, valid for it)
+    # (GMMTrainer.fit_predict has another default weight_constant_axis, (-2,),
+    # than GMMTrainer.fit, (-1,): comparable only when the option is given)
+    comparable = kind != 'gmm' or 'weight_constant_axis' in case.opts
+    if comparable and not close(fp, post, atol=1e-9)[0]:
+        raise Violation('fit_predict-differs-from-fit-then-predict',
+                        f'max diff {np.max(np.abs(np.asarray(fp) - np.asarray(post))):.3e}',
+                        kind=kind)
     for name, p in (('predict', post), ('fit_predict', fp)):
         est = np.argmax(p, axis=-2)
         wrong = int(np.sum(est != case.labels))
